@@ -24,12 +24,17 @@ func textAssumptions() []string {
 func prepareTextShards(ctx *Ctx, prop string, ncases int, reach []string, budget float64) *Prepared {
 	hdir := filepath.Join(ctx.Verif, "harness")
 	p := &Prepared{Targets: map[string]*ReplayTarget{}, ExpectReach: map[string][]string{}}
-	const perJob = 3
+	perJob := 3
+	fn := prop // quick: VH_<prop>_<nnn>; thorough: VH_<prop>T_<nnn> (Deep mode of harness/text)
+	if ctx.Tier == "thorough" {
+		perJob = 1
+		fn = prop + "T"
+	}
 	for s := 0; s < ncases; s += perJob {
 		j := &Job{Name: fmt.Sprintf("%s-cases%03d", prop, s), Dir: hdir, Patterns: []string{"./text"},
 			Opt: JobOptions{LoopBudget: 100000, AllocLimit: 1 << 22, TimeoutMs: 20000, EnumCap: 300, CheckRewrites: true, Witnesses: 1, FuncBudgetS: budget}}
 		for k := s; k < s+perJob && k < ncases; k++ {
-			j.Funcs = append(j.Funcs, fmt.Sprintf("vh/text.VH_%s_%03d", prop, k))
+			j.Funcs = append(j.Funcs, fmt.Sprintf("vh/text.VH_%s_%03d", fn, k))
 		}
 		p.Jobs = append(p.Jobs, j)
 		if len(reach) > 0 {
@@ -48,7 +53,7 @@ const textCases = 145
 
 func textBudget(ctx *Ctx) float64 {
 	if ctx.Tier == "thorough" {
-		return 1800
+		return 600
 	}
 	return 150
 }
@@ -58,6 +63,7 @@ func PrepareC11(ctx *Ctx) (*Prepared, error) {
 	p.Bounds = map[string]interface{}{
 		"cases":   "145 schema ASTs: 45 single-construct schemas (enums over every base type incl. negative hexadecimal members, [flags], structs with every type-expression form, readonly, integer and 4-character opcodes, messages, unions, consts of every literal form, imports, go_package, doc comments, block comments in bodies, deprecations on first/last/union members, end-of-line comments, consts followed by documented definitions) + all 100 ordered pairs of 10 attributed definition kinds (each pair one definition per line, each definition on one line, and both on the same line)",
 		"layouts": "LF / CRLF, space / tab indentation, one-line / multi-line; one separator byte symbolic over {space, tab}",
+		"thorough": "Deep mode: the first definition of every ordered pair and the structural cases keep their symbolic digits and identifier characters (quick: concrete), two identifier characters symbolic, all six layouts on every case without docs",
 		"outside": "schemas outside the case list; comment placements other than directly above a definition, field or option; more than one symbolic character per identifier",
 	}
 	p.Explanation = "bounded symbolic execution of bebop.ReadFile (tokenizer, token tree, parser, flag expression evaluator) on printed ASTs with symbolic details; the File returned is compared field by field with the File built from the AST"
